@@ -46,7 +46,12 @@ func docFor(g, size, salt int) []byte {
 		}
 		b.WriteString(`{"id":"g` + strconv.Itoa(g) + `-` + strconv.Itoa(i) + `","v":` + strconv.Itoa(g*100000+i) + `,"f":` + strconv.Itoa(i) + `.5,"s":"esc\n` + strconv.Itoa(g) + `"}`)
 	}
-	b.WriteString(`]}`)
+	b.WriteString(`]`)
+	if salt%3 != 2 {
+		// a long final string (its end is close to the end of the input): the string parser works on a padded copy
+		b.WriteString(`,"tail":"` + strings.Repeat("g"+strconv.Itoa(g)+"-", 120+salt%60) + `"`)
+	}
+	b.WriteString(`}`)
 	return b.Bytes()
 }
 
